@@ -775,7 +775,7 @@ func runC08(c *fw.Check) {
 		shapes = append(shapes, c08shapes(maxP, 3, 3, 1, instKinds, termKinds)...)
 		deep = " plus ALL 3-block shapes with <=1 instruction per block,"
 	}
-	c.Rule = fmt.Sprintf("ALL function shapes with <=%d params (named/unnamed), <=%d blocks (named/unnamed), <=%d instructions per block"+deep+" over %d instruction kinds and %d terminator kinds (void and non-void, named and unnamed calls, invokes, callbrs, stores, fences), each emitted with explicit numbers from an independent 20-line model of LLVM's rule (validated by llvm-as on every shape), with implicit result numbers, with implicit block labels, and built through the API; ALL module shapes of length <=%d over {named,unnamed} x {global, alias, ifunc, declaration, definition}, each also with attribute-group and metadata definitions (numbers of their own) written before and between the entities. Oracle: parser accepts every spelling LLVM accepts, String() does not panic, llvm-as accepts the printed numbering and reads the same functions (llvm-dis canonical form, so every %%N/@N is bound to the right value), numbering again changes nothing. distinct = shapes x forms.", maxP, maxB, maxI, len(instKinds), len(termKinds), modLen)
+	c.Rule = fmt.Sprintf("ALL function shapes with <=%d params (named/unnamed), <=%d blocks (named/unnamed), <=%d instructions per block"+deep+" over %d instruction kinds and %d terminator kinds (void and non-void, named and unnamed calls, invokes, callbrs, stores, fences), each emitted with explicit numbers from an independent 20-line model of LLVM's rule (validated by llvm-as on every shape), with implicit result numbers, with implicit block labels, and built through the API; ALL 256 named/unnamed shapes of an exception-handling funclet skeleton (catchswitch is the third value-producing terminator, catchpad a value-producing instruction) in the three textual forms; ALL module shapes of length <=%d over {named,unnamed} x {global, alias, ifunc, declaration, definition}, each also with attribute-group and metadata definitions (numbers of their own) written before and between the entities. Oracle: parser accepts every spelling LLVM accepts, String() does not panic, llvm-as accepts the printed numbering and reads the same functions (llvm-dis canonical form, so every %%N/@N is bound to the right value), numbering again changes nothing. distinct = shapes x forms.", maxP, maxB, maxI, len(instKinds), len(termKinds), modLen)
 	c.Extra["function_shapes"] = len(shapes)
 	const batch = 150
 	nb := (len(shapes) + batch - 1) / batch
@@ -794,6 +794,7 @@ func runC08(c *fw.Check) {
 		s := shapes[len(shapes)/2]
 		c.Sample(map[string]interface{}{"function_shape": s.String(), "explicit": c08text(s, "f", "explicit"), "implicit-labels": c08text(s, "f", "implicit-labels")})
 	}
+	c08eh(c)
 	// module shapes.
 	var mshapes [][]c08ent
 	var rec func(cur []c08ent)
